@@ -39,6 +39,10 @@ enum CbFault {
     CountersFrom(u32),
     /// counter-0 marker with its top bit set (outcome not asserted, see DESIGN.md)
     FirstTopSet,
+    /// marker k >= 1 corrupted into ANOTHER VALID MARKER: bits of its 23-bit counter and/or its
+    /// top bit flipped ("corrupted word" that is still an entry: no refusal can be expected, but
+    /// no time may be reported across an inconsistent marker pair)
+    CorruptMarker { k: u32, counter_xor: u32, flip_top: bool },
 }
 impl CbFault {
     fn kind(&self) -> &'static str {
@@ -52,6 +56,8 @@ impl CbFault {
             CbFault::CorruptWord { .. } => "corrupt_word",
             CbFault::CountersFrom(_) => "no_counter0_marker",
             CbFault::FirstTopSet => "first_marker_top_set",
+            CbFault::CorruptMarker { flip_top: true, counter_xor: 0, .. } => "marker_top_bit_flipped",
+            CbFault::CorruptMarker { .. } => "marker_counter_corrupted",
         }
     }
 }
@@ -181,6 +187,16 @@ fn written(b: &Board) -> Vec<W> {
         Some(CbFault::FirstTopSet) => {
             if let Some(W::Marker { top, .. }) = v.iter_mut().find(|w| matches!(w, W::Marker { counter: 0, .. })) {
                 *top = true;
+            }
+        }
+        Some(CbFault::CorruptMarker { k, counter_xor, flip_top }) => {
+            if *k >= 1 {
+                if let Some(W::Marker { top, counter }) = v.iter_mut().find(|w| matches!(w, W::Marker { counter, .. } if counter == k)) {
+                    *counter = (*counter ^ counter_xor) & 0x7F_FFFF;
+                    if *flip_top {
+                        *top = !*top;
+                    }
+                }
             }
         }
     }
@@ -348,7 +364,7 @@ impl Check for C20Check {
         "exploration"
     }
     fn rule(&self) -> String {
-        "scenario = 1..=4 Chronobox hardware models (0..=17 half-wrap markers, 0..=60 edges on seeded channels, a seeded share of them within 0, 2, 4 .. 2^23-2 ticks of a half wrap and written on the other side of the marker, scaler blocks whose payload imitates entries, at most one fault of {dropped marker, duplicated marker adjacent/apart, truncated tail inside entry/scaler block, word corrupted into a non-entry, no counter-0 marker, counter-0 marker with top bit set (unasserted)}) and 2-3 layouts of the SAME streams: seeded cuts into CBFn banks (0..max bytes, inside entries and blocks), banks grouped into Chronobox events interleaved with main/sequencer/other events (including non-Chronobox events that carry CBF banks, and unknown CBF-like banks), 1..=4 files (.mid/.mid.lz4, LE/BE, 16/32/32a-bit banks), seeded argv order, seeded hash seed. Every layout is one run of the real binary. Oracles: I1 exit status / CSV presence as the statement says; I2 rows = model rows per board in stream order, boards contiguous, channel and edge right; I3 every non-empty chronobox_time equals the model's true time (|dt| < 1 ns; a tick is 100 ns) and is empty exactly where the statement says; I4 identical CSV body across layouts. Non-trivial = at least one run of the binary on a stream with a counter-0 marker or a fault; distinct = distinct event-log hashes (stream bytes, layouts, outcomes).".into()
+        "scenario = 1..=4 Chronobox hardware models (0..=17 half-wrap markers, 0..=60 edges on seeded channels, a seeded share of them within 0, 2, 4 .. 2^23-2 ticks of a half wrap and written on the other side of the marker, scaler blocks whose payload imitates entries, at most one fault of {dropped marker, duplicated marker adjacent/apart, truncated tail inside entry/scaler block, word corrupted into a non-entry, marker corrupted into another valid marker (counter bits / top bit flipped), no counter-0 marker, counter-0 marker with top bit set (unasserted)}) and 2-3 layouts of the SAME streams: seeded cuts into CBFn banks (0..max bytes, inside entries and blocks), banks grouped into Chronobox events interleaved with main/sequencer/other events (including non-Chronobox events that carry CBF banks, and unknown CBF-like banks), 1..=4 files (.mid/.mid.lz4, LE/BE, 16/32/32a-bit banks), seeded argv order, seeded hash seed. Every layout is one run of the real binary. Oracles: I1 exit status / CSV presence as the statement says; I2 rows = model rows per board in stream order, boards contiguous, channel and edge right; I3 every non-empty chronobox_time equals the model's true time (|dt| < 1 ns; a tick is 100 ns) and is empty exactly where the statement says; I4 identical CSV body across layouts. Non-trivial = at least one run of the binary on a stream with a counter-0 marker or a fault; distinct = distinct event-log hashes (stream bytes, layouts, outcomes).".into()
     }
     fn assumptions(&self) -> Vec<String> {
         vec![
@@ -366,8 +382,8 @@ impl Check for C20Check {
     }
     fn count(&self, tier: Tier) -> u64 {
         match tier {
-            Tier::Quick => 1600,
-            Tier::Thorough => 100_000,
+            Tier::Quick => 6000,
+            Tier::Thorough => 300_000,
         }
     }
     fn watchdog_s(&self, _tier: Tier) -> u64 {
@@ -432,7 +448,13 @@ impl Check for C20Check {
             let n_el = edges.len() + n_markers as usize;
             let scalers_after = (0..r.usize(0, 3)).map(|_| r.usize(0, n_el)).collect();
             let fault = if faulty_board == Some(bi) {
-                Some(match r.below(9) {
+                Some(match r.below(12) {
+                    9 | 10 => CbFault::CorruptMarker {
+                        k: r.range(1, n_markers.max(2) as u64 - 1) as u32,
+                        counter_xor: *r.pick(&[1u32, 2, 3, 4, 8, 0x40_0000, 0x7F_FFFF, 1 << r.clone().below(23)]),
+                        flip_top: r.chance(1, 4),
+                    },
+                    11 => CbFault::CorruptMarker { k: r.range(1, n_markers.max(2) as u64 - 1) as u32, counter_xor: 0, flip_top: true },
                     0 => CbFault::DropMarker(0),
                     1 => CbFault::DropMarker(r.range(0, n_markers.max(1) as u64 - 1) as u32),
                     2 => CbFault::DupMarker { k: r.range(0, n_markers.max(1) as u64 - 1) as u32, gap: 0 },
